@@ -853,3 +853,84 @@ Proof.
   revert ins' E. induction ins as [|[k d] r IH]; intros [|[k' d'] r'] E; cbn in *; try discriminate; [constructor|].
   inversion E. constructor; [|now apply IH]. cbn. subst. rewrite H0. auto.
 Qed.
+
+(* workflow call: re-casing the names of `with:` (values unchanged) changes no verdict *)
+Definition lower_key {V} (kv : string * V) : string * V := (lower (fst kv), snd kv).
+
+Lemma lower_key_names {V} (l l' : list (string * V)) :
+  map lower_key l = map lower_key l' -> map lower (map fst l) = map lower (map fst l').
+Proof.
+  intros E. rewrite !map_map.
+  assert (H : forall x : list (string * V), map (fun kv => lower (fst kv)) x = map fst (map lower_key x)).
+  { intros x. rewrite map_map. reflexivity. }
+  now rewrite !H, E.
+Qed.
+
+Theorem calls_recase_wf_call m with_ with_' sec c n :
+  wf_names (map fst with_) -> map lower_key with_ = map lower_key with_' ->
+  In (c, n) (check_workflow_call m (parse_wcall with_ sec) ++ check_workflow_call_types (Some m) (parse_wcall with_ sec)) ->
+  exists n', lower n' = lower n /\
+    In (c, n') (check_workflow_call m (parse_wcall with_' sec) ++ check_workflow_call_types (Some m) (parse_wcall with_' sec)).
+Proof.
+  intros W E H. pose proof (lower_key_names _ _ E) as EN.
+  assert (W' : wf_names (map fst with_')) by (unfold wf_names in *; now rewrite <- EN).
+  apply in_app_iff in H. destruct H as [H|H].
+  - destruct c.
+    + apply wf_unknown_input_iff in H; [|assumption]. destruct H as [H1 H2].
+      destruct (in_map_eq_ex lower _ _ n EN H1) as [n' [H3 H4]].
+      exists n'. split; [assumption|]. apply in_app_iff. left. apply wf_unknown_input_iff; [assumption|]. rewrite H4. auto.
+    + exists n. split; [reflexivity|]. apply in_app_iff. left.
+      apply wf_missing_input_iff. apply wf_missing_input_iff in H. now rewrite <- EN.
+    + exists n. split; [reflexivity|]. apply in_app_iff. left.
+      rewrite check_workflow_call_In in *. cbn [parse_wcall wc_secrets wc_inherit] in *.
+      destruct H as [[H _]|[[H _]|H]]; try discriminate. right. right. exact H.
+    + exists n. split; [reflexivity|]. apply in_app_iff. left.
+      rewrite check_workflow_call_In in *. cbn [parse_wcall wc_secrets wc_inherit] in *.
+      destruct H as [[H _]|[[H _]|H]]; try discriminate. right. right. exact H.
+    + exfalso. rewrite check_workflow_call_In in H.
+      destruct H as [[H _]|[[H _]|[_ [[H _]|[H _]]]]]; discriminate.
+    + exfalso. rewrite check_workflow_call_In in H.
+      destruct H as [[H _]|[[H _]|[_ [[H _]|[H _]]]]]; discriminate.
+  - assert (C : c = TypeMismatch).
+    { unfold check_workflow_call_types in H. apply in_flat_map in H. destruct H as [kv [_ H]].
+      destruct (lookup (fst kv) (wm_inputs m)) as [mi|]; [|destruct H].
+      destruct (wi_type mi); [destruct H| | |];
+        (destruct (calls_assignable _ _); [destruct H|]; destruct H as [H|[]]; now inversion H). }
+    subst c. apply typed_input_iff in H; [|assumption].
+    destruct H as [n0 [v [mi [H1 [H2 [H3 H4]]]]]].
+    destruct (in_map_eq_ex lower_key _ _ (n0, v) E H1) as [[n1 v1] [H5 H6]].
+    unfold lower_key in H6. cbn in H6. inversion H6; subst v1.
+    exists n. split; [reflexivity|]. apply in_app_iff. right. apply typed_input_iff; [assumption|].
+    exists n1, v, mi. rewrite H0. auto.
+Qed.
+
+(* ... and re-casing the names under `secrets:` *)
+Theorem calls_recase_wf_secrets m with_ ss ss' c n :
+  wf_names ss -> map lower ss = map lower ss' ->
+  In (c, n) (check_workflow_call m (parse_wcall with_ (SecMap ss))) ->
+  exists n', lower n' = lower n /\ In (c, n') (check_workflow_call m (parse_wcall with_ (SecMap ss'))).
+Proof.
+  intros W E H. assert (W' : wf_names ss') by (unfold wf_names in *; now rewrite <- E).
+  destruct c.
+  - exists n. split; [reflexivity|].
+    rewrite check_workflow_call_In in *. cbn [parse_wcall wc_inputs wc_inherit] in *.
+    destruct H as [[H _]|[H|[_ [[H _]|[H _]]]]]; try discriminate. right. left. exact H.
+  - exists n. split; [reflexivity|].
+    rewrite check_workflow_call_In in *. cbn [parse_wcall wc_inputs wc_inherit] in *.
+    destruct H as [H|[[H _]|[_ [[H _]|[H _]]]]]; try discriminate. left. exact H.
+  - apply wf_unknown_secret_iff in H; [|intros ? E1; inversion E1; now subst].
+    destruct H as [ss0 [E0 [H1 H2]]]. inversion E0; subst ss0.
+    destruct (in_map_eq_ex lower _ _ n E H1) as [n' [H3 H4]].
+    exists n'. split; [assumption|]. apply wf_unknown_secret_iff; [intros ? E1; inversion E1; now subst|].
+    exists ss'. rewrite H4. auto.
+  - exists n. split; [reflexivity|]. apply wf_missing_secret_iff. apply wf_missing_secret_iff in H.
+    cbn [secret_names] in *. destruct H as [_ H]. split; [discriminate|]. now rewrite <- E.
+  - exfalso. rewrite check_workflow_call_In in H.
+    destruct H as [[H _]|[[H _]|[_ [[H _]|[H _]]]]]; discriminate.
+  - exfalso. rewrite check_workflow_call_In in H.
+    destruct H as [[H _]|[[H _]|[_ [[H _]|[H _]]]]]; discriminate.
+Qed.
+
+(* output references: the letter case of the reference never matters *)
+Theorem calls_recase_output t r r' : lower r = lower r' -> deref_reported t r = deref_reported t r'.
+Proof. intros E. destruct t; cbn; [reflexivity|reflexivity|]. now rewrite E. Qed.
